@@ -221,7 +221,12 @@ impl PendingSubscriptionSink {
 	/// the return value is simply ignored because no further notification are propagated
 	/// once reject has been called.
 	pub async fn reject(self, err: impl Into<ErrorObjectOwned>) {
-		let err = MethodResponse::subscription_error(self.id, err.into());
+		// The rejection is a response to the subscribe call: the response size limit applies to it as well.
+		let err = MethodResponse::subscription_response(
+			self.id,
+			ResponsePayload::<()>::error(err.into()),
+			self.inner.max_response_size() as usize,
+		);
 		_ = self.inner.send(err.to_json()).await;
 		#[cfg(jsonrpsee_verif)]
 		crate::verif::preempt("reject:response-queued").await;
